@@ -201,7 +201,7 @@ InvWhy(fn, k, r, rt) ==
 CONSTANTS Window, Quanta
 WindowQ == (0 - 12)..12
 QuantaQ == {0, 1, 2, 3, 4, 8, 12}
-WindowT == (0 - 24)..24
+WindowT == (0 - 32)..32
 QuantaT == {0, 1, 2, 3, 4, 5, 8, 12, 16, 20}
 WindowS == {0}
 QuantaS == {0}
